@@ -40,7 +40,7 @@ NAMES = ["A[0,0]", "A[0,1]", "A[1,0]", "A[1,1]", "x[0]", "x[1]", "x[2]", "x[3]",
 XV = ["vvar", "x"]
 SAFE_FUNCS = [f for f in FUNCS]
 TERM_KINDS = (["var", "scaled", "prod", "pow2", "pow3", "param", "vsum", "dot", "lincomb", "norm2", "norm1", "quad", "vpowsum",
-               "vunsum", "msum", "sqshift", "yvar", "lincomb-rev", "vsum-rev", "quad-rev", "divconst", "param2", "powparam", "powvar"] + ["fn:" + f for f in SAFE_FUNCS])
+               "vunsum", "msum", "sqshift", "yvar", "lincomb-rev", "vsum-rev", "quad-rev", "divconst", "param2", "powparam", "powvar", "const"] + ["fn:" + f for f in SAFE_FUNCS])
 AFFINE_KINDS = ["var", "scaled", "yvar", "lincomb", "lincomb-rev", "vsum", "vsum-rev", "divconst"]
 XR = ["slice", ["vvar", "x"], None, None, -1]
 
@@ -54,6 +54,9 @@ def term(kind, i, for_mul, scale):
     xj = ["elem", XV, (i + 1) % M]
     if kind == "var":
         r = xi
+    elif kind == "const":
+        # a plain number as a term of the accumulation: 2.5 - x.dot(x), 2.5 - c @ x - ...
+        r = _c(2.5 if i % 2 == 0 else -1.25)
     elif kind == "yvar":
         r = ["var", "y" if i % 2 else "z"]
     elif kind == "scaled":
@@ -140,6 +143,12 @@ def cases(draw, tier):
     elif op == "+" and draw(st.integers(0, 2)) == 0:
         affine = True
         kinds = [draw(st.sampled_from(AFFINE_KINDS)) for _ in range(nk)]
+    if regime == "sweep" and draw(st.integers(0, 11)) == 0:
+        # a number minus / plus a short accumulation of vector reductions: 2.5 - x.dot(x), 2.5 - c @ x - x.sum()
+        op = draw(st.sampled_from(["-", "-", "+"]))
+        n = draw(st.sampled_from([2, 2, 3]))
+        kinds = ["const"] + [draw(st.sampled_from(["dot", "vsum", "lincomb", "quad", "vpowsum", "norm2", "lincomb-rev", "quad-rev"])) for _ in range(2)]
+        convex, affine = False, False
     point = {nm: draw(st.integers(30, 90)) / 100.0 for nm in NAMES}
     return {"regime": regime, "op": op, "n": n, "thr": thr, "T": T, "kinds": kinds, "convex": convex, "affine": affine, "point": point,
             "wrt": draw(st.sampled_from(["x[0]", "x[1]", "x[3]", "y", "A[0,1]"])), "wrt_fresh": draw(st.integers(0, 3)) == 0,
@@ -158,7 +167,10 @@ def recipes(case):
     n, op = case["n"], case["op"]
     for_mul = op in ("*", "/")
     scale = min(0.1, 2.0 / max(n, 1))
-    terms = [term(case["kinds"][i % len(case["kinds"])], i, for_mul, scale) for i in range(n)]
+    def kind_at(i):
+        k = case["kinds"][i % len(case["kinds"])]
+        return "var" if k == "const" and (i != 0 or n < 2) else k    # a number only as the FIRST term of a longer accumulation
+    terms = [term(kind_at(i), i, for_mul, scale) for i in range(n)]
     return ["chain", op, terms, "left"], ["chain", op, terms, "balanced"], terms
 
 
